@@ -195,7 +195,10 @@ def quoted_setext(levels, spelling, container):
                      if lvl <= 2 and (container == 'quote' or i % 2 == 1))
 
 
-def evaluate(x, levels, texts, depth, omit_title, fname, qs=frozenset()):
+EARLIER_DOC = '# Zed\n\n## Yak\n\n### Xu\n'
+
+
+def evaluate(x, levels, texts, depth, omit_title, fname, qs=frozenset(), reuse=False):
     """-> None if the contract holds, else (observed, expected, class)"""
     from mistletoe import Document
     from mistletoe.contrib.toc_renderer import TocRenderer
@@ -206,6 +209,10 @@ def evaluate(x, levels, texts, depth, omit_title, fname, qs=frozenset()):
     try:
         with TocRenderer(depth=depth, omit_title=omit_title,
                          filter_conds=list(FILTERS[fname])) as r:
+            if reuse:
+                # the same renderer instance rendered another document before: its table of contents is
+                # about the document rendered last
+                r.render(Document(EARLIER_DOC))
             r.render(Document(x))
             try:
                 obs = read_toc(r.toc)
@@ -216,6 +223,8 @@ def evaluate(x, levels, texts, depth, omit_title, fname, qs=frozenset()):
     if err is None and obs == exp:
         return None
     cls = classify(entries, omit_title, err)
+    if reuse and err is None and obs is not None and len(_texts(obs)) > len(_texts(exp)) and any(t in ('Zed', 'Yak', 'Xu') for t in _texts(obs)):
+        return (obs, exp, 'toc-keeps-headings-of-earlier-document')
     if err is None and obs is not None and _shape(obs) == _shape(exp) and _texts(obs) != _texts(exp) \
             and any(c in t for t in _texts(exp) for c in '*_[]`~<&\\'):
         # same outline, different entry text, and the expected plain text looks like Markdown again:
@@ -249,7 +258,7 @@ def _run(job):
         for depth, omit, fname in _configs():
             res['evaluations'] += 1
             res['contract_evaluations'] += 1
-            r = evaluate(x, levels, texts, depth, omit, fname, qs)
+            r = evaluate(x, levels, texts, depth, omit, fname, qs, reuse=(contract == 'toc-reused-renderer'))
             entries = expected_entries(levels, texts, depth, omit, FILTERS[fname])
             if len(entries) >= 2 and len(set(e[0] for e in entries)) >= 2:
                 res['distinct_nontrivial'] += 1
@@ -320,6 +329,12 @@ def run(tier, seed, workers):
                             cases.append(('toc-structure', x, levels, tuple(titles),
                                           quoted_setext(levels, sp, cont)))
     n_plain = len(cases)
+    for n in range(0, 3):
+        for levels in outlines(n):
+            titles = [POOL[i % len(POOL)] for i in range(n)]
+            x = build_doc(levels, titles, 'atx', 'top', False)
+            cases.append(('toc-reused-renderer', x, levels, tuple(titles), frozenset()))
+    n_plain = len(cases)
     for n in range(1, 4):
         for levels in outlines(n):
             for rot in range(len(MARKUPS)):
@@ -365,7 +380,8 @@ def run(tier, seed, workers):
             'rotations %r of the pool %r x spelling {ATX, setext for levels 1-2} x container '
             '{top level, block quote, list item, alternating top/quote} x {headings only, '
             'interleaved paragraphs} = %d distinct documents, plus %d documents (outlines with '
-            '<= 3 headings) whose titles carry inline markup (contract toc-markup-title); each x '
+            '<= 3 headings) whose titles carry inline markup (contract toc-markup-title), plus the outlines with <= 2 headings '
+            'rendered by a renderer instance that rendered another document before (contract toc-reused-renderer); each x '
             'depth 1..6 x omit_title {True, False} x filter_conds {[], [lambda s: "skip" in s], '
             '[lambda s: s.startswith("A")]}'
             % (n_out, nmax, rots, POOL, n_plain, len(cases) - n_plain)),
